@@ -448,8 +448,21 @@ var posixTypes = func() string {
 	return sb.String()
 }()
 
+// unicodeLeaves: arguments outside ASCII (two-, three- and four-byte characters, combining marks)
+// in double-quoted, single-quoted and unquoted form, in every place the dump shows: units, defaults,
+// patterns, enum names, must expressions, extension arguments.
+var unicodeLeaves = func() string {
+	var sb strings.Builder
+	for i := 0; i < 24; i++ {
+		fmt.Fprintf(&sb, ` leaf n%d { type string { pattern "[α-ω]{%d}é*"; length "1..%d"; } units "µs·%d°"; default "ñ%dö😀日本é"; description "Größe – 温度 № %d"; must ". != 'ß%d'"; }`, i, i+1, i+40, i, i, i, i)
+		fmt.Fprintf(&sb, ` leaf e%d { type enumeration { enum "秒%d"; enum µ%d { value %d; } enum 'Ω %d'; } units °C; }`, i, i, i, i+7, i)
+	}
+	return sb.String()
+}()
+
 func wide(tag string) []dump.File {
 	return []dump.File{
+		{Name: "u8.yang", Text: `module u8 { yang-version 1.1; ` + H("u8") + ` organization "Ünïcödé Ŧeam 組織"; contact "Björklund <mb@example.com> 😀"; description "` + tag + ` – ` + tag + `";` + unicodeLeaves + ` leaf tag { type string; default "é` + tag + `ü"; units "` + tag + `µ"; } }`},
 		{Name: "oc.yang", Text: `module openconfig-extensions { yang-version 1.1; namespace "urn:oc"; prefix oc; extension posix-pattern { argument pattern; } }`},
 		{Name: "pp.yang", Text: `module pp { yang-version 1.1; ` + H("pp") + ` import openconfig-extensions { prefix oc; }` + posixTypes + ` leaf tag { type string; default "` + tag + `"; } }`},
 		{Name: "w.yang", Text: `module w { yang-version 1.1; ` + H("w") + ` include ws; import x { prefix x; } revision 2020-01-01; extension ext { argument a; } feature f;
